@@ -1,6 +1,7 @@
 package main
 
 import (
+	"os/exec"
 	"encoding/json"
 	"flag"
 	"fmt"
@@ -19,6 +20,7 @@ type KnownFinding struct {
 	What       string `json:"what"`
 	Status     string `json:"status"` // "known" | "fixed"
 	Commit     string `json:"commit,omitempty"`
+	Replay     string `json:"replay,omitempty"` // findings/<file>: for findings identified by a failing input only (obligation "replay.<name>")
 }
 
 type KnownFindings struct {
@@ -219,6 +221,21 @@ func main() {
 			line += " no-failing-input-found"
 		}
 		violations = append(violations, line)
+	}
+	// findings identified by a replayed input only (no contract within reach states them): listed for
+	// their own property; in the thorough tier the replay is run and must still fail
+	for _, k := range known.Findings {
+		if k.Status != "known" || !strings.HasPrefix(k.Obligation, "replay.") || !(*prop == "all" || *prop == k.Property) {
+			continue
+		}
+		msg := fmt.Sprintf("KNOWN-FINDING: property=%s %s %s", k.Property, k.Obligation, k.What)
+		if *tier == "thorough" && k.Replay != "" {
+			out, _ := exec.Command(filepath.Join(*verif, "findings", "run.sh"), filepath.Base(k.Replay)).CombinedOutput()
+			if strings.HasPrefix(string(out), "PASS") {
+				msg += " [NOTE: the replay no longer fails on this tree - the finding may have been repaired; update known_findings.json]"
+			}
+		}
+		knownMatched = append(knownMatched, msg)
 	}
 	for _, m := range knownMatched {
 		fmt.Println(m)
